@@ -105,7 +105,7 @@ class C17(core.Check):
                                        'neg:file-label/include-after-local-label', 'neg:file-label/include-after-org',
                                        'neg:file-label/include-nested', 'class:symbol-spelled-like-a-word-of-the-include-line',
                                        'symbol-from:define', 'symbol-from:config', 'symbol-from:cmdline',
-                                       'class:file-names-differing-in-letter-case-only', 'dirs:same-directory-under-another-spelling', 'neg:main-file-again/relative', 'neg:main-file-again/absolute', 'neg:main-file-again/symlinked-directory']}
+                                       'class:file-names-differing-in-letter-case-only', 'dirs:same-directory-under-another-spelling', 'neg:global-defined-in-two-files/same-line-number', 'neg:global-defined-in-two-files/other-line-number', 'neg:main-file-again/relative', 'neg:main-file-again/absolute', 'neg:main-file-again/symlinked-directory']}
 
     def metamorphic(self, rng, nest_p=0.5, prefer_mute=0):
         g = None
@@ -340,6 +340,29 @@ class C17(core.Check):
                            'meta': {'class': 'metamorphic', 'image': None, 'kind': 'ACCEPT', 'includes': ['a.asm']},
                            'tags': ['class:include-in-uncompiled-branch', 'dirs:1', 'nesting:1']}
 
+    def global_twice_cases(self):
+        """a global name defined in the includer and in an included file (or in two included files) is defined twice, as it
+        would be with the text pasted in place - on whichever lines of their files the two definitions stand"""
+        isa = gen_prog.layout_isa(16)
+        fn, itext = isamod.render_isa(isa, 'json')
+        for what, d1, d2 in (('label', 'dup_g:', 'dup_g:'), ('constant', 'dup_g = 5', 'dup_g = 5'), ('constant-other-value', 'dup_g = 5', 'dup_g = 6'),
+                             ('label-and-constant', 'dup_g:', 'dup_g EQU 7')):
+            for same_line in (True, False):
+                pad = [] if same_line else ['.byte $70']
+                for shape in ('includer-then-included', 'included-then-includer', 'two-included-files'):
+                    if shape == 'includer-then-included':
+                        fl = {'p.asm': ['.byte 1', d1, '.byte 2', '#include "a.asm"'], 'a.asm': pad + ['.byte 3', d2, '.byte 4']}
+                    elif shape == 'included-then-includer':
+                        fl = {'p.asm': ['#include "a.asm"'] + ['.byte 1'] * (1 if same_line else 2) + [d1, '.byte 2'], 'a.asm': ['.byte 3', '.byte 5', d2, '.byte 4']}
+                    else:
+                        fl = {'p.asm': ['.byte 1', '#include "a.asm"', '#include "b.asm"'], 'a.asm': ['.byte 3', d1, '.byte 4'],
+                              'b.asm': pad + ['.byte 5', d2, '.byte 6']}
+                    files = {k_: '\n'.join(v_) + '\n' for k_, v_ in fl.items()}
+                    files[fn] = itext
+                    yield {'runs': [{'files': files, 'argv': ['compile', '-c', fn, 'p.asm', '-o', 'out.bin'], 'probes': ['steps', 'files'], 'step_limit': 500000}],
+                           'meta': {'class': 'negative', 'kind': 'REJECT', 'why': f'global {what} defined in two files ({shape})', 'image': None},
+                           'tags': ['neg:global-defined-in-two-files', 'neg:global-defined-in-two-files/' + ('same-line-number' if same_line else 'other-line-number')]}
+
     def negative(self, rng, kind, how=None):
         isa = gen_prog.layout_isa(16)
         fn, itext = isamod.render_isa(isa, 'json')
@@ -440,6 +463,7 @@ class C17(core.Check):
         yield from self.dead_include_cases()
         yield from self.symbol_name_cases()
         yield from self.case_twin_file_cases()
+        yield from self.global_twice_cases()
         negs = ['included-twice', 'transitively-twice', 'self-include', 'missing-file', 'ambiguous-name']
         for i in range(25 if tier == 'quick' else 100):
             rng = core.rng_for(0, self.pid, 'neg', i)
